@@ -6,7 +6,9 @@ check("C16", "model_checking",
       "first generation; the three trees must be equal. Corpus files accepted by both parsers: the two trees are compared. "
       "Larger random modules (TLC simulation mode), a sample of the derived ones and the corpus files are lexed and parsed by the real "
       "code and TLC (Trace_Grammar.tla) re-parses the recorded token stream along the recorded tree. Exhaustive within the bounds on the "
-      "real code, sampled beyond them. The recogniser of the documented grammar (SyntaxRules.tla: pushdown recogniser over token classes, verdict valid | unc | invalid(lo, hi); all class sequences up to the bound in 7 contexts, every single-token fault of the derived modules, mutated corpus files validated by TLC on the real token stream) contributes the discrepancies that belong to this property. A sample of the derived modules is also repeated 130 / 270 / 1100 times (Module ::= Decl*).",
+      "real code, sampled beyond them. The recogniser of the documented grammar (SyntaxRules.tla: pushdown recogniser over token classes, verdict valid | unc | invalid(lo, hi); all class sequences up to the bound in 7 contexts, every single-token fault of the derived modules, mutated corpus files validated by TLC on the real token stream) contributes the discrepancies that belong to this property. A sample of the derived modules is also repeated 130 / 270 / 1100 times (Module ::= Decl*); the cell generator MC_PenneGrammarCells.tla adds 12 families "
+      "(wide / deep / documented bounds / expressions x positions / types x positions / statements x positions / names x namespaces / declaration orders) and "
+      "three systematic layouts (no whitespace and no final newline, a comment in every gap, a newline in every gap).",
       "Trusted: TLC, the grammar in spec/PenneGrammar.tla + PenneAst.tla (from docs/syntax.md, features.md, README, the sample programs; "
       "precedence levels looked up in src/alpha/parser.rs because the documents are silent), the renderer, the XML reader and the two "
       "projections onto the exchange format (checks of the checker: 3 self-tests, 4 mutations of the parser/dump are caught). Bounds: 13 foci, "
